@@ -649,6 +649,17 @@ func init() {
 	regIntrinsic("(*google.golang.org/protobuf/internal/encoding/json.Decoder).newSyntaxError", protoErr)
 	regIntrinsic("(*google.golang.org/protobuf/internal/encoding/text.Decoder).newSyntaxError", protoErr)
 	regIntrinsic("(*regexp.Regexp).Find", opaqueStr)
+	regIntrinsic("internal/bytealg.MakeNoZero", func(w *Worker, st *State, f *Frame, x *ssa.Call, fv FuncV, a []Value) (Value, bool) {
+		n := st.concreteInt(needTerm(a[0], "MakeNoZero"), "MakeNoZero len")
+		if n < 0 || n > 1<<20 {
+			panic(cutErr{"MakeNoZero size"})
+		}
+		if n == 0 {
+			return ret(SliceV{})
+		}
+		o := st.heap.alloc(n, nil, "MakeNoZero")
+		return ret(SliceV{P: Ptr{Obj: o.ID}, Len: n, Cap: n})
+	})
 	regIntrinsic("os.Getenv", func(w *Worker, st *State, f *Frame, x *ssa.Call, fv FuncV, a []Value) (Value, bool) {
 		return ret(StrV{})
 	})
